@@ -30,6 +30,13 @@ env = dict(os.environ, GOFLAGS="-mod=mod", GOPROXY="off", GOSUMDB="off", GOTOOLC
 def sh(cmd, cwd=None, timeout=3600, extra=None):
     e = dict(env); e.update(extra or {})
     return subprocess.run(cmd, shell=True, cwd=cwd, env=e, capture_output=True, text=True, timeout=timeout)
+# independently written property-preserving changes (sub-agents that were given the 18 property
+# statements and asked for realistic refactorings / optimisations / robustness changes):
+# demos/benign_patches/<area>-<letter>.patch.diff (+ .notes.md)
+import glob
+for pf in sorted(glob.glob(os.path.join(os.path.dirname(os.path.abspath(__file__)), "benign_patches", "*.patch.diff"))):
+    nm = os.path.basename(pf)[:-len(".patch.diff")]
+    B.append(("agent-" + nm, pf, "independently written (see benign_patches/%s.notes.md)" % nm))
 CHECKS = ["C%02d" % i for i in range(1, 19)]
 names = [a for a in sys.argv[1:] if not a.startswith("C")]
 only = [a for a in sys.argv[1:] if a.startswith("C")] or CHECKS
@@ -42,6 +49,11 @@ for name, edits, why in B:
     assert sh(f"git -C /repo worktree add --detach {wt} HEAD").returncode == 0
     try:
         ok = True
+        if isinstance(edits, str):
+            a = sh(f"git apply {edits}", wt)
+            if a.returncode != 0:
+                print(f"{name}: PATCH-DOES-NOT-APPLY {a.stderr[-200:]}"); continue
+            edits = []
         for f, old, new in edits:
             p = os.path.join(wt, f); s = open(p).read()
             if s.count(old) != 1:
@@ -60,4 +72,10 @@ for name, edits, why in B:
     finally:
         sh(f"git -C /repo worktree remove --force {wt}"); shutil.rmtree(wt, ignore_errors=True); sh("git -C /repo worktree prune")
         shutil.rmtree(out, ignore_errors=True)
-    json.dump(res, open(resf, "w"), indent=1)
+    cur = json.load(open(resf)) if os.path.exists(resf) else {}
+    if name in res:
+        if name in cur and "checks" in cur[name]:
+            cur[name]["checks"].update(res[name]["checks"])
+        else:
+            cur[name] = res[name]
+    json.dump(cur, open(resf, "w"), indent=1)
